@@ -833,6 +833,48 @@ def task_setters(ctx, repo, m, W):
         ctx.function(m, fn, 'Solver.' + meth)
         obs.append(Obligation('setters.%s' % meth, [], z3.BoolVal(bool(ok)),
                               W))
+    # the constructor: the requested output times are stored whatever the
+    # constructor's tf is -- set_final_time() may raise tf afterwards (the
+    # Application does for --tf), and "every requested time inside (0, tf)"
+    # is about the tf the run ends with.  Dependency contract on the source:
+    # what reaches self.output_at_times is computed from the parameter
+    # output_at_times alone (through numpy), not from tf, dt or self.
+    import ast as _ast
+    fn = m.methods('Solver')['__init__']
+    deps = {}
+    stores = []
+    for st_ in _ast.walk(fn):
+        if isinstance(st_, (_ast.Assign, _ast.AugAssign)):
+            tg = st_.targets if isinstance(st_, _ast.Assign) else [st_.target]
+            used = set()
+            for x in _ast.walk(st_.value):
+                if isinstance(x, _ast.Name):
+                    used.add(x.id)
+                elif isinstance(x, _ast.Attribute) and isinstance(
+                        x.value, _ast.Name) and x.value.id == 'self':
+                    used.add('self.' + x.attr)
+            for t in tg:
+                for y in _ast.walk(t):
+                    if isinstance(y, _ast.Name):
+                        deps.setdefault(y.id, set()).update(used)
+                if isinstance(t, _ast.Attribute) and isinstance(
+                        t.value, _ast.Name) and t.value.id == 'self' and \
+                        t.attr == 'output_at_times':
+                    stores.append(used)
+    reach = set()
+    todo = [u for st_ in stores for u in st_]
+    while todo:
+        u = todo.pop()
+        if u in reach:
+            continue
+        reach.add(u)
+        todo.extend(deps.get(u, ()))
+    ok = len(stores) == 1 and 'output_at_times' in reach and \
+        reach <= {'output_at_times', 'numpy', 'np'}
+    ctx.function(m, fn, 'Solver.__init__ (the store to output_at_times)')
+    obs.append(Obligation('setters.constructor_keeps_every_requested_time',
+                          [], z3.BoolVal(bool(ok)), W, extra=dict(
+                              depends_on=sorted(reach))))
     for meth, attr in (('add_post_stage_callback', 'post_stage_callbacks'),
                        ('add_post_step_callback', 'post_step_callbacks'),
                        ('add_pre_step_callback', 'pre_step_callbacks')):
